@@ -465,7 +465,7 @@ func runLinzMap(a *args, res *result) {
 			continue
 		}
 		if i%12 == 5 {
-			sp := mapSpec{Flavor: pick(r, flavors), Hint: noHint, NKeys: 2048}
+			sp := mapSpec{Flavor: pick(r, flavors), Hint: noHint, NKeys: 20480}
 			if sp.Flavor != "Map" && len(hashers) > 0 && r.chance(0.3) {
 				sp.Hasher = pick(r, []string{"mix", "sameh2"})
 			}
@@ -672,15 +672,20 @@ func stableStorm(r rng, res *result, idx int64, name string, load func(int) (any
 // keys - so that it shrinks - and check that they are gone. A write that returned
 // but landed in a table that had already been replaced is seen by its own author.
 func ownStorm(r rng, res *result, idx int64, name string, load func(int) (any, bool), store func(int, any), del func(int)) {
-	G := pick(r, []int{48, 128, 256})
-	const per = 4
+	// the large storms make many goroutines reach a grow threshold at the same moment:
+	// most of them lose the race for the resize and wait, and come back late
+	G := pick(r, []int{48, 128, 256, 1024, 2000})
+	per := 4
+	if G >= 1024 {
+		per = 10
+	}
 	logCase("own-storm round %d %s goroutines=%d", idx, name, G)
 	old := runtime.GOMAXPROCS(pick(r, []int{4, 8, 16}))
 	mode := vshim.MCount | vshim.MBudget
 	if r.chance(0.35) {
 		// a third of the storms run with long pauses between adjacent loads / after a CAS instead of at native speed
-		G = 32
-		vshim.SetPerturb(2, pick(r, []vshim.Kind{vshim.KLoad, vshim.KLoad, vshim.KAfterCAS, vshim.KLock}))
+		G, per = pick(r, []int{32, 96}), 4
+		vshim.SetPerturb(2, pick(r, []vshim.Kind{vshim.KLoad, vshim.KLoad, vshim.KAfterCAS, vshim.KLock, vshim.KStore, vshim.KCondWait, vshim.KAfterUnlock}))
 		mode |= vshim.MPerturb
 	} else {
 		vshim.SetPerturb(0, vshim.NKinds)
